@@ -13,7 +13,7 @@
 #include "vf_alloc.h"
 #include "vf_rec.h"
 
-enum { K_N8_PAIRS = VC_USER, K_N16_PAIRS, K_CONSERVATIVE, K_GROWTH, K_SERSIZE, K_GRID, K_E2E, K_E2E_REFUSED, K_E2E_GRANTED, K_NARROW_RUNS, K_SERIALIZE_SMALL, K_NARROW_SERIALIZE };
+enum { K_N8_PAIRS = VC_USER, K_N16_PAIRS, K_CONSERVATIVE, K_GROWTH, K_SERSIZE, K_GRID, K_E2E, K_E2E_REFUSED, K_E2E_GRANTED, K_NARROW_RUNS, K_SERIALIZE_SMALL, K_NARROW_SERIALIZE, K_NARROW_BUILD, K_BUILD_HUGE };
 #define N16_JOBS 64
 typedef unsigned __int128 u128;
 
@@ -41,6 +41,7 @@ static void run_narrow(const char* envname, const char* args, int cnt_pairs_slot
       else if (!strcmp(name, "growth_steps")) { vf_cnt(K_GROWTH, v); vf_cnt(VC_EVAL, v); vf_cnt(VC_TRACES, v); }
       else if (!strcmp(name, "sersize_cases")) { vf_cnt(K_SERSIZE, v); vf_cnt(VC_EVAL, v); vf_cnt(VC_TRACES, v); }
       else if (!strcmp(name, "serialize_calls")) { vf_cnt(K_NARROW_SERIALIZE, v); vf_cnt(VC_EVAL, v); vf_cnt(VC_TRACES, v); }
+      else if (!strcmp(name, "build_calls")) { vf_cnt(K_NARROW_BUILD, v); vf_cnt(VC_EVAL, v); vf_cnt(VC_TRACES, v); }
     } else if (!strncmp(line, "FAIL ", 5))
       vf_fail(NULL, "[%s %s] %s", envname, args, line + 5);
     else if (L)
@@ -179,6 +180,21 @@ static void e2e_unit(void) {
                 if (text) s->metadata.string_metadata.length = 0; else s->metadata.bytestring_metadata.length = 0;
                 cbor_decref(&s);
               }
+            /* the copying constructors with the same lengths: granted only on at least that many bytes (the 1 MiB cap refuses the huge ones
+             * - unless the request the library computed is not the length any more) */
+            for (unsigned j = 0; j < (k == 64 && dlt == -1 ? 25u : 1u); j++)
+              for (int text = 0; text < 2; text++) {
+                uint64_t nn = n - j;
+                static unsigned char src[(1 << 20) + 64];
+                va_reset();
+                cbor_item_t* b1 = text ? cbor_build_stringn((const char*)src, nn) : cbor_build_bytestring(src, nn);
+                vf_cnt(K_BUILD_HUGE, 1);
+                if (b1) {
+                  if (va.max_request < nn) vf_fail(NULL, "%s with length %#" PRIx64 " succeeded although the largest request was %#" PRIx64 " bytes", text ? "cbor_build_stringn" : "cbor_build_bytestring", nn, va.max_request);
+                  cbor_decref(&b1);
+                }
+                if (va.live) va_release_all();
+              }
             need = 0;
             succeeded = false;
           }
@@ -230,6 +246,6 @@ struct vf_check vf_the_check = {
                     "narrow programs are built with ASan/UBSan: an under-allocation that is then written to is also a heap-buffer-overflow report"},
     .counters = {[VC_EVAL] = "cases_judged", [VC_DISTINCT] = "distinct_operand_pairs", [VC_TRANS] = "unused", [VC_TRACES] = "executed_on_implementation", [K_N8_PAIRS] = "pairs_at_8_bit_size_t",
                  [K_N16_PAIRS] = "pairs_at_16_bit_size_t", [K_CONSERVATIVE] = "conservative_refusals_observed", [K_GROWTH] = "growth_steps_at_narrow_widths", [K_SERSIZE] = "serialized_size_cases_at_narrow_widths",
-                 [K_GRID] = "grid_cells_at_64_bit", [K_E2E] = "end_to_end_calls", [K_E2E_REFUSED] = "end_to_end_calls_that_failed_or_need_no_memory", [K_E2E_GRANTED] = "end_to_end_calls_granted", [K_NARROW_SERIALIZE] = "serialize_calls_at_narrow_widths", [K_SERIALIZE_SMALL] = "serialize_calls_on_strings_of_huge_declared_length_into_small_buffers",
+                 [K_GRID] = "grid_cells_at_64_bit", [K_E2E] = "end_to_end_calls", [K_E2E_REFUSED] = "end_to_end_calls_that_failed_or_need_no_memory", [K_E2E_GRANTED] = "end_to_end_calls_granted", [K_NARROW_SERIALIZE] = "serialize_calls_at_narrow_widths", [K_NARROW_BUILD] = "copying_string_constructors_at_narrow_widths", [K_BUILD_HUGE] = "copying_string_constructors_with_lengths_up_to_SIZE_MAX", [K_SERIALIZE_SMALL] = "serialize_calls_on_strings_of_huge_declared_length_into_small_buffers",
                  [K_NARROW_RUNS] = "narrow_program_runs"},
     .init = init, .units = units, .unit = unit, .replay = replay};
